@@ -931,6 +931,7 @@ fn random_sa_cells(out: &Arc<Shared>, first_run: u64, seed: u64, n: u64, full: b
         }
         pairs.push((1e-300, 2e-300));
     }
+    pairs.push((2e-310, 7e-310)); // subnormal values and temperatures (1 / T overflows there)
     pairs.push((-3e-18, -1e-18)); // negative, tiny
     pairs.push((-1e-17, 1e-17)); // around zero
     pairs.push((0.0, 5e-17)); // from zero
